@@ -117,7 +117,19 @@ def run_config(ini, nmax, seed, monitor_names):
     from monitors import checks as mon
     base = os.path.dirname(jellyfysh.__file__)
     cfg = ConfigParser()
-    cfg.read(ini)
+    label = None
+    if ini.startswith("generated/"):
+        from monitors.generated import GENERATED
+        base_ini, overrides = GENERATED[ini]
+        label = ini
+        ini = os.path.join(base, "config_files", base_ini)
+        cfg.read(ini)
+        for sec, opt, val in overrides:
+            if not cfg.has_section(sec):
+                cfg.add_section(sec)
+            cfg.set(sec, opt, val)
+    else:
+        cfg.read(ini)
     scratch = tempfile.mkdtemp(prefix="verif-mon-")
     for sec in cfg.sections():
         if cfg.has_option(sec, "filename"):
@@ -175,7 +187,7 @@ def run_config(ini, nmax, seed, monitor_names):
                     err = "%s: %s\n%s" % (type(e).__name__, e, tb[-1500:])
     import shutil
     shutil.rmtree(scratch, ignore_errors=True)
-    return {"config": os.path.relpath(ini, base), "events": min(state["n"], nmax), "evaluations": rec.evaluations,
+    return {"config": label or os.path.relpath(ini, base), "events": min(state["n"], nmax), "evaluations": rec.evaluations,
             "violations": rec.violations, "samples": rec.samples[:3], "error": err, "seconds": round(time.time() - t0, 2)}
 
 
